@@ -34,6 +34,8 @@ var kindsByProp = map[string][]string{
 }
 
 func init() {
+	kindsByProp["C16"] = []string{"create", "create", "create", "create", "create", "create", "transfer", "transfer", "extcall", "extcall", "selfdestruct", "selfdestruct", "etx", "convert", "sstore", "log",
+		"call", "call", "call", "call", "call", "revert", "invalid", "return"}
 	// C15 (memory accounting): memory-touching actions and every operation with memory operands, heavily weighted
 	kindsByProp["C15"] = []string{"mem", "mem", "mem", "mem", "log", "log", "sstore", "transfer", "etx", "etx", "etx", "convert", "convert", "extcall", "extcall", "lockup", "lockup", "precompile", "precompile",
 		"call", "call", "call", "call", "call", "call", "create", "create", "create", "revert", "revert", "return", "return", "invalid", "selfdestruct"}
@@ -393,6 +395,16 @@ func (c *caseCtx) check(p *pass) {
 		c.fail("C02", "gas-charge-bounds", label+" gas-used-above-limit", fmt.Sprintf("gas used %d > gas limit %d", p.receipt.GasUsed, p.gasLimit))
 	}
 
+	// C16: whatever the transaction did, this zone's account state holds no account outside the zone or in the Qi ledger
+	for _, a := range append(append([]common.Address{}, tc.outOfScope...), extQi, extQuaiZ1, localQi, localQi2) {
+		if a.Bytes()[0] == loc.BytePrefix() && !a.IsInQiLedgerScope() {
+			continue
+		}
+		simkit.Global.Inc("out_of_scope_addresses_probed")
+		if p.st.Exist(common.InternalAddress(a.Bytes20())) {
+			c.fail("C16", "state-scope", fmt.Sprintf("out-of-scope-account-exists qi=%v foreign=%v", a.IsInQiLedgerScope(), a.Bytes()[0] != loc.BytePrefix()), fmt.Sprintf("after the transaction the zone's state contains an account for %x", a.Bytes()))
+		}
+	}
 	// balances through the getters, before the trie is rebuilt
 	for _, a := range w.known {
 		if b := p.st.GetBalance(mustInternal(a)); b.Sign() < 0 {
@@ -887,6 +899,11 @@ func TestC05(t *testing.T) {
 
 func TestC02(t *testing.T) {
 	rapid.Check(t, func(t *rapid.T) { runBytecode(t, "C02") })
+}
+
+// TestC16 (EVM half): creations and value transfers aimed at foreign-zone and Qi-ledger addresses, judged by the scope oracles.
+func TestC16(t *testing.T) {
+	rapid.Check(t, func(t *rapid.T) { runBytecode(t, "C16") })
 }
 
 // TestC15 (EVM half): the same generated programs and gas cuts, judged only by the memory-accounting oracle in the tracer.
